@@ -1,6 +1,7 @@
 import MM.Props.Exhaustive
 import MM.Props.Greedy
 import MM.Props.SearchTie
+import MM.Props.WithinTie
 #print axioms MM.Search.evaluatedRaw_eq_filter
 #print axioms MM.Search.C13_greedy_in_evaluated
 #print axioms MM.Search.C13_empty
@@ -8,3 +9,5 @@ import MM.Props.SearchTie
 #print axioms MM.Search.C14_greedy
 #print axioms MM.Search.tie_volume
 #print axioms MM.Search.tie_geo_ratio
+#print axioms MM.Search.tie_within
+#print axioms MM.Search.tie_within_fields
